@@ -706,7 +706,6 @@ func nrListed(entries []*m.S, n int) int {
 //@   loop 1 use-entry lemmaDivMul(wt.nowWraps+1, 0, nrSegs)
 //@   loop 1 invariant nr <= nowNr+1 || nr == se.startNr+1
 //@   loop 1 invariant loopTicks: int(wrapDur) == wrapDurOf(a, rep) && relNowTime < wrapDur && nowNr == wt.nowWraps*nrSegs + relNowIdx && 0 <= relNowIdx && relNowIdx < nrSegs && wt.nowWraps >= 0
-//@   loop 1 invariant rolled: wt.nowWraps*int(wrapDur) + int(relNowTime) == specNowTicks(a, rep, old(wt), atoMS) || (wt.nowWraps+1)*int(wrapDur) + int(relNowTime) == specNowTicks(a, rep, old(wt), atoMS)
 //@   loop 1 invariant inLoop: relNowTime >= segs[0].EndTime ==> specNowTicks(a, rep, old(wt), atoMS) == wt.nowWraps*int(wrapDur) + int(relNowTime)
 //@   loop 1 invariant inLoopIdx: relNowTime >= segs[0].EndTime ==> segs[relNowIdx].EndTime <= relNowTime && (relNowIdx+1 < nrSegs ==> segs[relNowIdx+1].EndTime > relNowTime)
 //@   loop 1 invariant prevLoop: relNowTime < segs[0].EndTime ==> specNowTicks(a, rep, old(wt), atoMS) == (wt.nowWraps+1)*int(wrapDur) + int(relNowTime) && relNowIdx == nrSegs-1
@@ -715,8 +714,12 @@ func nrListed(entries []*m.S, n int) int {
 //@   loop 1 invariant nextNr: relNowIdx+1 == nrSegs ==> nowNr+1 == (wt.nowWraps+1)*nrSegs+0
 //@   loop 1 invariant nextInLoop: relNowIdx+1 < nrSegs ==> (nowNr+1)/len(rep.Segments) == wt.nowWraps && (nowNr+1)%len(rep.Segments) == relNowIdx+1
 //@   loop 1 invariant nextAfterWrap: relNowIdx+1 == nrSegs ==> (nowNr+1)/len(rep.Segments) == wt.nowWraps+1 && (nowNr+1)%len(rep.Segments) == 0
+//@   exit 2 requires nowTicksIs: (relNowTime >= segs[0].EndTime ==> specNowTicks(a, rep, old(wt), atoMS) == wt.nowWraps*int(wrapDur) + int(relNowTime)) && (relNowTime < segs[0].EndTime ==> specNowTicks(a, rep, old(wt), atoMS) == (wt.nowWraps+1)*int(wrapDur) + int(relNowTime))
+//@   exit 2 requires nextInLoopNr: relNowIdx+1 < nrSegs ==> (nowNr+1)/len(rep.Segments) == wt.nowWraps && (nowNr+1)%len(rep.Segments) == relNowIdx+1
+//@   exit 2 requires nextInLoopEnd: relNowIdx+1 < nrSegs ==> specEnd(a, rep, nowNr+1) == int(segs[relNowIdx+1].EndTime) + wt.nowWraps*int(wrapDur)
 //@   exit 2 requires nextInLoopHasNotEnded: segs[0].StartTime == 0 && relNowIdx+1 < nrSegs ==> specNowTicks(a, rep, old(wt), atoMS) < specEnd(a, rep, nowNr+1)
 //@   exit 2 requires nextAfterWrapNr: relNowIdx+1 == nrSegs ==> (nowNr+1)/len(rep.Segments) == wt.nowWraps+1 && (nowNr+1)%len(rep.Segments) == 0
+//@   exit 2 requires nextAfterWrapEnd: relNowIdx+1 == nrSegs ==> specEnd(a, rep, nowNr+1) == int(segs[0].EndTime) + (wt.nowWraps+1)*int(wrapDur)
 //@   exit 2 requires nextAfterWrapHasNotEnded: segs[0].StartTime == 0 && relNowIdx+1 == nrSegs ==> specNowTicks(a, rep, old(wt), atoMS) < specEnd(a, rep, nowNr+1)
 //@   exit 1 requires noneEnded: segs[0].StartTime == 0 ==> specNowTicks(a, rep, old(wt), atoMS) < specEnd(a, rep, 0)
 //@   loop 1 use-entry lemmaWrapDurIsRepDur(a, rep)
